@@ -71,6 +71,24 @@ func (p *c13prop) Gen(kind string, idx int64, seed int64, tier string) core.Case
 			ops := GenOps(r, 400, HWeights{Write: 22, ReadFrom: 6, Parse: 40, ParseNTL: 8, Shrink: 20})
 			cc.Conc = append(cc.Conc, PCase{Cfg: c, Stream: stream, Ops: ops})
 		}
+		// a few instances with buffers beyond 64 KiB (large temporary slices
+		// inside the suffix array parsers, several of them at the same time)
+		for g := 0; g < 6; g++ {
+			t := []string{"OSAP", "OSAP", "OSAP", "GSAP", "BUP", "OSAP"}[g]
+			c := gen.SmallCfg(r, t, gen.Opts{})
+			c.BufferSize = 70000 + r.Intn(30000)
+			c.ShrinkSize = c.BufferSize / 2
+			c.WindowSize = 1 << 16
+			c.BlockSize = 16384
+			c.MaxMatchLen = 273
+			c.MinMatchLen = 3
+			_, stream := gen.Bytes(r, 160000, c.Hint())
+			ops := []POp{}
+			for i := 0; i < 6; i++ {
+				ops = append(ops, POp{K: "readfrom", A: 1, B: 0}, POp{K: "parse"}, POp{K: "parse"}, POp{K: "parse"}, POp{K: "parse"}, POp{K: "parse"}, POp{K: "parse"}, POp{K: "shrink"})
+			}
+			cc.Conc = append(cc.Conc, PCase{Cfg: c, Stream: stream, Ops: ops})
+		}
 		cc.Reps = 2
 	default:
 		c := gen.SmallCfg(r, typ, gen.Opts{FewHashBits: r.Intn(2) == 0})
@@ -91,6 +109,29 @@ func (p *c13prop) Gen(kind string, idx int64, seed int64, tier string) core.Case
 		cc.Cfg = c
 		cc.S1 = gen.Family(r, fam, 200+r.Intn(1200), c.Hint())
 		cc.S2 = gen.Family(r, fam, 100+r.Intn(800), c.Hint())
+		if r.Intn(4) == 0 {
+			// 0x00 at buffer position 0 is indistinguishable from an empty
+			// table entry: old data starting with a zero run whose length is
+			// around the hash input / bucket geometry, new data over {0, x}
+			il := c.InputLen + c.InputLen1
+			k := c.BucketSize + il - 1 + r.Intn(5) - 2
+			if r.Intn(3) == 0 || k < 1 {
+				k = 1 + r.Intn(20)
+			}
+			for i := 0; i < k && i < len(cc.S1); i++ {
+				cc.S1[i] = 0
+			}
+			if k < len(cc.S1) {
+				cc.S1[k] = 'x'
+			}
+			for i := range cc.S2 {
+				if r.Intn(3) > 0 {
+					cc.S2[i] = 0
+				} else {
+					cc.S2[i] = 'x' + byte(r.Intn(2))
+				}
+			}
+		}
 		if class == "reset" {
 			cc.H1 = GenOps(r, 10+r.Intn(60), w)
 		}
